@@ -1449,7 +1449,7 @@ struct Explorer {
       out->push_back(x);
       return;
     }
-    if (WorldKey(before, true) != WorldKey(after, true)) {
+    if (WorldKey(before) != WorldKey(after)) {
       Violation x; x.prop = "C19"; x.clause = "world-changed";
       string what;
       for (auto& kv : before.files) {
@@ -1457,7 +1457,7 @@ struct Explorer {
         if (!f) what += " -" + kv.first;
         else if (!kv.second.dir && (f->data != kv.second.data || f->mtime != kv.second.mtime)) what += " ~" + kv.first;
       }
-      for (auto& kv : after.files) if (!before.Get(kv.first) && !kv.second.dir) what += " +" + kv.first;
+      for (auto& kv : after.files) if (!before.Get(kv.first)) what += " +" + kv.first + (kv.second.dir ? "/" : "");
       x.detail = "'" + op.label + "' changed the tree or the meaning of the logs:" + what;
       x.facts.set("tool", op.tool_kind);
       x.facts.set("changed", what);
